@@ -6,7 +6,8 @@
 #endif
 
 namespace {
-using Cfg = vp::MCfg<vp::Tracked, vp::ObsAlloc<vp::Tracked, 8>, 8>;
+using CfgEq = vp::MCfg<vp::Tracked, vp::ObsAlloc<vp::Tracked, 8>, 8>;   // always-equal observing allocator
+using CfgNe = vp::MCfg<vp::Tracked, vp::ObsAlloc<vp::Tracked, 0>, 0>;   // stateful, non-propagating: slots may hold unequal allocators
 
 // Recorded known findings (known_findings.txt, C09): (operation kind, event kind) pairs at which no fault is injected, so that the search goes on
 // behind them.  Lifted in known mode (VP_KNOWN=1) where the committed minimal histories show that each finding is still present.
@@ -18,17 +19,18 @@ bool veto(int op, unsigned kind) {
 	return false;
 }
 
-template<int D> void run_d(vp::Input const& in, vp::Ctx& ctx) {
+template<class Cfg, int D> void run_d(vp::Input const& in, vp::Ctx& ctx) {
+	unsigned const ids = Cfg::flags == 0 ? in.head(0) : 0U;
 	// dry run: count the events (allocations, element default/copy/move constructions, element assignments)
 	long E = 0;
 	{
 		vp::obs().reset();
 		vp::Ctx dry;
-		vp::Machine<Cfg, D> M(dry, 0);
+		vp::Machine<Cfg, D> M(dry, ids);
 		M.enabled = vp::kAllOps & ~(vp::bit(vp::O_DECAY));
 		M.run(in);
 		E = vp::obs().events;
-		ctx.desc << "Tracked D=" << D << dry.desc.s << " || events=" << E;
+		ctx.desc << "Tracked D=" << D << (Cfg::flags == 0 ? " unequal-allocators ids=" : " equal-allocators") ; if(Cfg::flags == 0) { ctx.desc << (ids & 15U); } ctx.desc << dry.desc.s << " || events=" << E;
 	}
 	if(E == 0) { return; }
 	// injection points: all when few (or in the exhaustive build), else a spread sample
@@ -44,7 +46,7 @@ template<int D> void run_d(vp::Input const& in, vp::Ctx& ctx) {
 		vp::obs().veto = veto;
 		vp::Ctx sub;
 		try {
-			vp::Machine<Cfg, D> M(sub, 0);
+			vp::Machine<Cfg, D> M(sub, ids);
 			M.enabled = vp::kAllOps & ~(vp::bit(vp::O_DECAY));
 			M.run(in);
 			if(M.faulted) { ++fired; ctx.nontrivial = true; }
@@ -68,10 +70,12 @@ struct Prop {
 	static constexpr char const* id = "C09";
 	static constexpr int H = 3, R = 8, MAXOPS = 6;
 	static void run(vp::Input const& in, vp::Ctx& ctx) {
-		switch(in.head(1) % 3) {
-			case 0: run_d<1>(in, ctx); break;
-			case 1: run_d<2>(in, ctx); break;
-			default: run_d<3>(in, ctx); break;
+		switch(in.head(1) % 5) {
+			case 0: run_d<CfgEq, 1>(in, ctx); break;
+			case 1: run_d<CfgEq, 2>(in, ctx); break;
+			case 2: run_d<CfgEq, 3>(in, ctx); break;
+			case 3: run_d<CfgNe, 1>(in, ctx); ctx.label("unequal_allocators"); break;
+			default: run_d<CfgNe, 2>(in, ctx); ctx.label("unequal_allocators"); break;
 		}
 	}
 };
